@@ -595,10 +595,10 @@ func main() {
 	rep.AddTLC(res)
 	simCases := 0
 	if env.Thorough() {
-		simCfg := "CONSTANTS\n  Depth = 3\nINIT Init\nNEXT Next\nINVARIANT MetaOK\nCHECK_DEADLOCK FALSE\n"
+		simCfg := fmt.Sprintf("CONSTANTS\n  Tier = \"thorough\"\n  Seed = %d\n  Fams = {}\n  Depth = 3\nINIT SimInit\nNEXT SimNext\nINVARIANT MetaOK\nCHECK_DEADLOCK FALSE\n", env.Seed)
 		n0 := len(cases)
 		r2 := env.MustTLC(common.TLCRun{Dir: "C01", Module: "PyExprSim", Config: "sim.cfg", Extra: map[string]string{"sim.cfg": simCfg},
-			Simulate: "num=12000", Depth: 45, Seed: env.Seed, Timeout: 8 * time.Minute, OnLine: collect})
+			Simulate: "num=8000", Depth: 5, Seed: env.Seed, Workers: 1, Timeout: 8 * time.Minute, OnLine: collect})
 		if len(r2.Violations) > 0 {
 			common.Inconclusive("property=C01 meta-invariant fails on a random tree: %v\n%s", r2.Violations, r2.Stdout)
 		}
